@@ -195,6 +195,51 @@ def validate_batch(rep, label, named_events, drift_only_rec=True):
     return v, bad
 
 
+def family(rep, bld, tier, judge):
+    """Output-context family (CodeWriter_GenFam): SAVE/RESTORE, CPU from any segment / same CPU, SEGMENT same segment,
+    RORG, PHASE/DEPHASE, ALIGN reserving and filling, STRUCT blocks, BINCLUDE, macro- and REPT-generated data.
+    (a) transition cover of the context graph: every statement of the family from every context, followed by a probing
+        data statement, the RESTOREs owed and END;  (b) simulation mixed with CodeWriter_Gen's boundary sizes."""
+    cov = tlc.must(tlc.run("CodeWriter_GenFam", "CodeWriter_GenFam.cfg" if tier == "quick" else "CodeWriter_GenFamT.cfg",
+                           workers=1, timeout=1200, mem="6g"), "CodeWriter_GenFam")
+    behs, seen = [], set()
+    for tag, b in cov.printed:
+        if tag == "TR" and repr(b) not in seen:
+            seen.add(repr(b))
+            behs.append(b)
+    ncover = len(behs)
+    if ncover < 1000:
+        raise CheckError("CodeWriter_GenFam: transition cover printed only %d behaviours" % ncover)
+    nsim = 200 if tier == "quick" else 4000
+    sim = tlc.must(tlc.run("CodeWriter_GenFam", "CodeWriter_GenFamSim.cfg", workers=4, simulate=nsim // 4, depth=14,
+                           timeout=900, mem="6g"), "CodeWriter_GenFamSim")
+    sbehs = []
+    for tag, b in sim.printed:
+        if tag == "BEH" and repr(b) not in seen:
+            seen.add(repr(b))
+            sbehs.append(b)
+    rng("c04fam").shuffle(sbehs)
+    sbehs = sbehs[:60 if tier == "quick" else 2500]
+    rep.cov["transitions"] += cov.generated + sim.generated
+    rep.cov["states"] += cov.distinct
+    rep.part("family", cover_behaviours=ncover, context_states=cov.distinct, simulated=len(sbehs),
+             statements=sorted(set(st["a"] for b in behs for st in b)))
+    behs += sbehs
+    jobs = []
+    for bi, b in enumerate(behs):
+        src, _ = render(b, cpu_stmt=(bi % 2 == 0))
+        files = render_files(b)
+        srcs = dict(files)
+        srcs["a.asm"] = src
+        jobs.append((b, src, files, {"sources": srcs, "events": "file,emit", "timeout": 60,
+                                     "opts": ["-q"] + ([] if bi % 2 == 0 else ["-cpu", DIALECTS[b[0]["dial"]]["cpu"]])}))
+    with Phase("replay %d programs of the output-context family" % len(jobs)):
+        results = aslrun.assemble_many(bld, [j[3] for j in jobs])
+    for (b, src, files, _), res in zip(jobs, results):
+        judge(b, src, res, files)
+    rep.sample({"family_program": jobs[len(jobs) // 3][0], "rendered": jobs[len(jobs) // 3][1]})
+
+
 def main(tier):
     rep = Report(PID, tier)
     bld = build.get("hook")
@@ -202,12 +247,25 @@ def main(tier):
                         "hook events report the bytes handed to WriteBytes; the bytes a statement *should* produce are "
                         "checked only for the generated data statements (pattern), for the corpus they are C09/C14's",
                         "hooks: %s" % ("emit/reserve/retract events" if bld.hooks else "unavailable: replay only")]
-    # (M)
+    # (M) the two machines of CodeWriter_MC run side by side (each TLC run is essentially one busy thread)
+    import threading
+    fam_mc = {}
+
+    def run_fam_mc():
+        fam_mc["r"] = tlc.run("CodeWriter_MC", "CodeWriter_MCFam.cfg" if tier == "quick" else "CodeWriter_MCFam6.cfg",
+                              workers=2, timeout=2400, mem="6g", collect=False)
+    th = threading.Thread(target=run_fam_mc)
+    th.start()
     mc = tlc.must(tlc.run("CodeWriter_MC", "CodeWriter_MC.cfg" if tier == "quick" else "CodeWriter_MC6.cfg",
                           timeout=2400, mem="8g", collect=False), "CodeWriter_MC")
+    th.join()
     if mc.violation:
         raise CheckError("the CodeWriter design violates its invariants: %s" % mc.violation[:800])
     rep.model("CodeWriter_MC", mc)
+    fmc = tlc.must(fam_mc["r"], "CodeWriter_MC(SpecFam)")
+    if fmc.violation:
+        raise CheckError("the output-context family of CodeWriter_MC violates its invariants: %s" % fmc.violation[:800])
+    rep.model("CodeWriter_MC(SpecFam)", fmc)
 
     # (G)
     nsim = 400 if tier == "quick" else 6000
@@ -236,19 +294,24 @@ def main(tier):
                                               "events": "file,emit", "timeout": 60}
                                              for bi, (b, src, _) in enumerate(jobs)])
     named = []
-    for (b, src, nexp), res in zip(jobs, results):
+
+    def judge(b, src, res, files=None):
+        """image of the code file vs. the image TLC predicted for behaviour b; queues the trace for (V)"""
         rep.evaluated()
         rep.distinct(src, any(st["a"] != "EMIT" for st in b))
         prog = [{k: v for k, v in st.items()} for st in b]
+        fl = {"a.asm": src}
+        fl.update(files or {})
         if res.timeout or res.sig is not None:
-            rep.violation("assembler crashed/hung (rc=%s sig=%s)" % (res.rc, res.sig), case=prog, files={"a.asm": src})
-            continue
+            rep.violation("assembler crashed/hung (rc=%s sig=%s)" % (res.rc, res.sig), case=prog, files=fl)
+            return
         if res.rc != 0 or res.p is None:
             raise CheckError("generated program rejected by asl (renderer bug?): %s\n%s" % (res.out + res.err, src[:400]))
+        fl["a.p"] = res.p
         parsed = codefile.parse(res.p)
         if not parsed.well_formed:
-            rep.violation("code file not well formed: %s" % parsed.problems, case=prog, files={"a.asm": src, "a.p": res.p})
-            continue
+            rep.violation("code file not well formed: %s" % parsed.problems, case=prog, files=fl)
+            return
         got = sorted((s, a, b) for (s, a), bs in parsed.image().items() for b in bs)
         exp = render(b)[1]
         wild = set((s, a) for (s, a, v) in exp if v is None)
@@ -257,15 +320,18 @@ def main(tier):
         exp = sorted(exp, key=lambda t: (t[0], t[1], -1 if t[2] is None else t[2]))
         got = sorted(got, key=lambda t: (t[0], t[1], -1 if t[2] is None else t[2]))
         if got != exp:
-            missing = list(set(exp) - set(got))[:5]
-            extra = list(set(got) - set(exp))[:5]
+            missing = sorted(set(exp) - set(got), key=str)[:5]
+            extra = sorted(set(got) - set(exp), key=str)[:5]
             rep.violation("image of the code file differs from the image the specification predicts: %d vs %d bytes; "
-                          "missing %s extra %s" % (len(exp), len(got), missing, extra), case=prog,
-                          files={"a.asm": src, "a.p": res.p})
-            continue
+                          "missing %s extra %s" % (len(exp), len(got), missing, extra), case=prog, files=fl)
+            return
         ev = file_events(res.trace, parsed)
         if ev:
             named.append(("generated#%d" % len(named), ev, (prog, src, res.p)))
+
+    for (b, src, nexp), res in zip(jobs, results):
+        judge(b, src, res)
+    family(rep, bld, tier, judge)
     # several sources in ONE invocation (dimension added after a seeded change that let the entry address of
     # `END <addr>` survive into the code files of the following sources): every source's code file must be the one
     # the same source gives alone - which was just compared with the image and entry the specification predicts
@@ -343,6 +409,10 @@ def replay(path):
     src = os.path.join(path, "a.asm")
     if os.path.exists(src):
         bld = build.get("hook")
-        res = aslrun.assemble(bld, {"a.asm": open(src).read()}, opts=["-q"], events="file,emit")
+        srcs = {"a.asm": open(src).read()}
+        for f in os.listdir(path):
+            if f.endswith(".bin"):                       # files of BINCLUDE statements
+                srcs[f] = open(os.path.join(path, f), "rb").read()
+        res = aslrun.assemble(bld, srcs, opts=["-q"], events="file,emit")
         log("rc=%s records=%s" % (res.rc, [r.as_dict() for r in res.parsed().records] if res.p else None))
     return 0
